@@ -197,6 +197,9 @@ func (g *c14Gen) value(t *ast.Type, depth int) interface{} {
 		}
 		if g.maybeDefect("unknown-field") != "" {
 			g.applied = "unknown-field"
+			if def.Name == "One" && r.Bool() {
+				out = map[string]interface{}{} // the undeclared member as the ONLY member of a @oneOf input object
+			}
 			out[r.Pick("nope", "X", "xx", "__meta", "__", "__Typename", "__typenam", "_typename")] = 1
 		}
 		if g.maybeDefect("missing-required-field") != "" {
@@ -252,7 +255,7 @@ func (g *c14Gen) scalar(name string) interface{} {
 		case 2:
 			return int64(3)
 		case 3:
-			return json.Number("1e3")
+			return json.Number(r.Pick("1e3", "3", "-0", "7"))
 		}
 		return -0.5
 	case "String":
@@ -619,7 +622,7 @@ func c14Alias(x *core.Ctx, schema *ast.Schema, variant string) {
 	x.Count("aliased_map_cases")
 	x.Nontrivial()
 	if errSeparate == nil {
-		x.HarnessBug("alias case is meant to be invalid with separate maps: " + decl)
+		x.Violate("accepted-cannot-conform(separate-maps:"+variant+")", "values returned for "+decl+" although the map of the second variable does not fit its type", "an error")
 		return
 	}
 	if errShared == nil {
@@ -862,6 +865,24 @@ func c14Check(x *core.Ctx, c *core.Case) {
 				return
 			}
 			x.Count("numbers_compared")
+			// a number that arrives as decoder text (json.Number) is converted by the library itself, so the Go kind of the
+			// result is the library's choice and must fit the declared type: a float for Float (3 as well as 3.0: the
+			// specification coerces integer input to a Float), an integer for Int (after seeded change C15-wave10-A)
+			if _, isNum := decodeTyped(raw2).(json.Number); isNum {
+				k := reflect.ValueOf(got).Kind()
+				switch strings.TrimSuffix(ts, "!") {
+				case "Float":
+					x.Count("decoder_numbers_for_Float")
+					if k != reflect.Float64 && k != reflect.Float32 {
+						x.Violate("number-kind(Float-from-decoder-text)", fmt.Sprintf("%T(%v) for %s", got, got, c.Get("value")), "a float64")
+					}
+				case "Int":
+					x.Count("decoder_numbers_for_Int")
+					if k == reflect.Float64 || k == reflect.Float32 || k == reflect.String {
+						x.Violate("number-kind(Int-from-decoder-text)", fmt.Sprintf("%T(%v) for %s", got, got, c.Get("value")), "an integer")
+					}
+				}
+			}
 		}
 	}
 	if x.WantSample() && isSupplied && strings.Count(ts, "[") >= 2 {
